@@ -632,9 +632,8 @@ fn c08_as_connack_once(bytes: &[u8]) -> CaseOut {
                 let id_too_long = aid.as_ref().is_some_and(|a| a.len() > 64);
                 if *reason != 0 {
                     match res {
-                        Err(e) if Res::from_err(&e) == Res::Rejected(*reason) || (Res::from_err(&e) == Res::Rejected(0xFF)) => {
-                            outcome = "rejected".into()
-                        }
+                        // (the packet was classified valid, so `reason` is one of the codes MQTT 5 defines for CONNACK)
+                        Err(e) if Res::from_err(&e) == Res::Rejected(*reason) => outcome = "rejected".into(),
                         other => {
                             let o = other.map(|_| ()).map_err(|e| Res::from_err(&e));
                             outcome = format!("{:?}", o);
